@@ -156,19 +156,19 @@ def gen_version_atom(rng, cfg):
 def gen_string_atom(rng, cfg):
     name = rng.choice(cfg["string_vars"])
     pool = STRING_VARS[name]
-    roll = rng.random()
-    if roll < 0.55:
-        return atom(name, rng.choice(["==", "==", "!="]), rng.choice(pool), rng.random() < cfg["p_flip"])
-    if roll < 0.85:
+    op = rng.choice(cfg["string_ops"])
+    if op in ("==", "!="):
+        return atom(name, op, rng.choice(pool), rng.random() < cfg["p_flip"])
+    if rng.random() < 0.7:
         # variable in "a b c"
         k = rng.choice([1, 2, 2, 3])
         value = " ".join(rng.sample(pool, k=min(k, len(pool))))
-        return atom(name, rng.choice(["in", "not in"]), value)
+        return atom(name, op, value)
     # "lit" in variable (literal on the left, substring test)
     lit = rng.choice(pool)
     if rng.random() < 0.5 and len(lit) > 3:
         lit = lit[:3]
-    return atom(name, rng.choice(["in", "not in"]), lit, True)
+    return atom(name, op, lit, True)
 
 
 def gen_extra_atom(rng, cfg):
@@ -352,7 +352,7 @@ def gen_config(rng, fault_class=None):
         kind_weights = [0.85, 0.15, 0.0]
     else:
         kind_weights = [0.55, 0.33, 0.12]
-    n_bases = rng.choice([2, 3, 3, 4])
+    n_bases = rng.choice([1, 2, 2, 3, 4])
     bases = rng.sample(VERSION_BASES, k=n_bases)
     if rng.random() < 0.5:
         # adjacent bases make merges collapse into ~= / == X.* forms
@@ -361,7 +361,11 @@ def gen_config(rng, fault_class=None):
         if nb not in bases:
             bases.append(nb)
     version_vars = list(VERSION_VARS) if flavour != "version" or rng.random() < 0.7 else [rng.choice(VERSION_VARS)]
-    string_vars = rng.sample(sorted(STRING_VARS), k=rng.choice([1, 2, 2, 3]))
+    string_vars = rng.sample(sorted(STRING_VARS), k=rng.choice([1, 1, 2, 3]))
+    string_ops = ["==", "==", "!=", "in", "not in"]
+    if rng.random() < 0.4:
+        # a run focused on one or two operators makes same-variable groups (== "a" or == "b" …) build up
+        string_ops = rng.sample(["==", "!=", "in", "not in"], k=rng.choice([1, 1, 2]))
     order_ops = list(ORDER_OPS)
     if rng.random() < 0.3:
         order_ops = rng.sample(ORDER_OPS, k=rng.choice([2, 3, 4]))
@@ -374,12 +378,14 @@ def gen_config(rng, fault_class=None):
         "bases": bases,
         "version_vars": version_vars,
         "string_vars": string_vars,
+        "string_ops": string_ops,
         "extras": rng.sample(EXTRA_VALUES, k=rng.choice([2, 3, 4])),
         "releases": rng.sample(RELEASE_VALUES, k=rng.choice([2, 3, 4])) if rng.random() < 0.3 else [],
         "p_release": rng.choice([0.15, 0.4, 1.0]),
         "p_combo": rng.choice([0.35, 0.5, 0.5, 0.7]),
         "p_reparse": rng.choice([0.05, 0.12, 0.12, 0.3]),
         "roundtrip": rng.random() < 0.25,
+        "p_echo": rng.choice([0.0, 0.0, 0.15, 0.35]),
         "order_ops": order_ops,
         "p_flip": rng.choice([0.0, 0.15, 0.3, 0.5]),
         "p_invalid": rng.choice([0.0, 0.0, 0.3]),
@@ -388,15 +394,15 @@ def gen_config(rng, fault_class=None):
         "max_atoms": rng.choice([3, 4, 4, 5, 6]),
         "n_victims": rng.choice([1, 1, 1, 2]),
         "n_aggressors": rng.choice([0, 1, 1, 1, 2]),
-        "ops_per_client": rng.choice([3, 4, 5, 6, 7, 8]),
+        "ops_per_client": rng.choice([3, 4, 5, 6, 8, 10, 12]),
         "rewrites": rewrites,
         "p_rewrite": rng.choice([0.3, 0.6, 0.9]),
         "schedule": rng.choice(["aggressor_first", "interleaved", "interleaved", "victim_first"]),
         "faults": faults_on,
         "fault_kinds": fault_kinds,
-        "fault_rate": rng.choice([0.1, 0.2, 0.35]) if faults_on else 0.0,
+        "fault_rate": rng.choice([0.15, 0.3, 0.45]) if faults_on else 0.0,
         "p_retry": rng.choice([0.0, 0.5, 1.0]),
-        "p_scout": rng.choice([0.0, 0.5, 1.0]),
+        "p_scout": rng.choice([0.5, 1.0, 1.0]),
         "p_garbage": rng.choice([0.0, 0.0, 0.05]),
         "p_dropgc": rng.choice([0.0, 0.1, 0.2]),
         "shims": rng.random() < 0.5,
@@ -484,6 +490,52 @@ def _log_uniform(rng, lo, hi):
     return int(round(math.exp(rng.uniform(math.log(lo), math.log(hi)))))
 
 
+def _insert_echoes(rng, cfg, steps, n_clients):
+    """Cross-client hand-over of rendered text: after a step that combined markers, some OTHER client
+    parses the rendered result as plain text (and may combine it with something of its own)."""
+    out = []
+    pending = []  # (due position, source id, client)
+    own = {c: [] for c in range(n_clients)}  # producing step ids per client, in the NEW numbering
+    ren = {}
+    def emit(st):
+        st = dict(st)
+        old = st["id"]
+        st["id"] = len(out)
+        for k in ("a", "b"):
+            if k in st and st["op"] != "echo" and not isinstance(st[k], _new):
+                st[k] = ren[st[k]]
+            elif k in st:
+                st[k] = int(st[k])
+        if old is not None:
+            ren[old] = st["id"]
+        out.append(st)
+        if st["op"] in ("parse", "and", "or", "reparse", "echo"):
+            own[st["c"]].append(st["id"])
+        return st["id"]
+    dropped = set()
+    for pos, st in enumerate(steps):
+        emit(st)
+        if st["op"] == "drop":
+            dropped.add(ren[st["a"]] if st["a"] in ren else None)
+        if st["op"] in ("and", "or", "reparse") and rng.random() < cfg["p_echo"]:
+            others = [c for c in range(n_clients) if c != st["c"]]
+            pending.append((pos + rng.choice([0, 0, 1, 3, 6]), ren[st["id"]], rng.choice(others)))
+        due = [p for p in pending if p[0] <= pos]
+        pending = [p for p in pending if p[0] > pos]
+        for _, src, c in due:
+            eid = emit({"id": None, "c": c, "op": "echo", "a": src})
+            mine = [i for i in own[c] if i != eid and i not in dropped]
+            if mine and rng.random() < 0.6:
+                emit({"id": None, "c": c, "op": rng.choice(["and", "or"]), "a": _new(eid), "b": _new(rng.choice(mine))})
+    for _, src, c in pending:
+        emit({"id": None, "c": c, "op": "echo", "a": src})
+    return out
+
+
+class _new(int):
+    """An operand id that is already in the new numbering (emit must not translate it)."""
+
+
 def gen_program(rng, fault_class=None):
     """Return {"config":…, "steps":[…]}: the flat, globally numbered step list."""
     cfg = gen_config(rng, fault_class)
@@ -539,10 +591,12 @@ def gen_program(rng, fault_class=None):
         elif kind in ("reparse", "drop"):
             st["a"] = local2global[c][op[1]]
         steps.append(st)
+    if cfg["p_echo"] and len(scripts) > 1:
+        steps = _insert_echoes(rng, cfg, steps, len(scripts))
     if cfg["faults"]:
         for st in steps:
-            if st["op"] in ("parse", "and", "or", "reparse"):
-                rate = cfg["fault_rate"] * (1.5 if st["op"] == "or" else 1.0)
+            if st["op"] in ("parse", "and", "or", "reparse", "echo"):
+                rate = cfg["fault_rate"] * (1.5 if st["op"] in ("or", "and") else 1.0)
                 if rng.random() < rate:
                     st["fault"] = {"exc": rng.choice(cfg["fault_kinds"]), "retry": rng.random() < cfg["p_retry"]}
                     if rng.random() < cfg["p_scout"]:
@@ -594,7 +648,7 @@ def literals_of_steps(steps):
     return out
 
 
-def make_envs(steps, cap=40):
+def make_envs(steps, cap=24):
     """Deterministic environment grid derived from the literals of the program."""
     lits = literals_of_steps(steps)
     vvalues = lits.get("python_version", []) + lits.get("python_full_version", [])
@@ -653,7 +707,7 @@ def make_envs(steps, cap=40):
     return envs
 
 
-def make_envs_from_texts(texts, cap=40):
+def make_envs_from_texts(texts, cap=24):
     """Environment grid for hand-written histories (no ASTs): scrape quoted literals."""
     import re
 
